@@ -334,11 +334,29 @@ def run(ctx):
     tasks = [{"kind": "accept", "text": t, "opts": c[1], "goals": g[1], "nvals": N + 1, "timeout": 60}
              for t, c, g in zip(texts, cases, goals)]
     results = lib.run_tasks(tasks, timeout=60)
-    # a time-out of a whole program: find the monomial
-    retry = [(i, gi) for i, r in enumerate(results) if r.get("error") == "timeout" for gi in range(len(goals[i][1]))]
-    retry = retry[:ctx.pick(24, 200)]
-    rres = lib.run_tasks([{"kind": "accept", "text": texts[i], "opts": cases[i][1], "goals": [goals[i][1][gi]], "nvals": N + 1, "timeout": 60}
-                          for i, gi in retry], timeout=60) if retry else []
+    # a time-out of a whole program: re-run the normalisation alone and every monomial alone (60 s each);
+    # only a task that times out on its own is a time-out in the sense of the property
+    slow = [i for i, r in enumerate(results) if r.get("error") == "timeout"][:ctx.pick(6, 40)]
+    retry = [(i, None) for i in slow] + [(i, gi) for i in slow for gi in range(len(goals[i][1]))]
+    rres = lib.run_tasks([{"kind": "accept", "text": texts[i], "opts": cases[i][1], "goals": [] if gi is None else [goals[i][1][gi]],
+                           "nvals": N + 1, "timeout": 60} for i, gi in retry], timeout=60) if retry else []
+    n_slow_resolved = 0
+    for i in slow:
+        base = [rr for (ii, gi), rr in zip(retry, rres) if ii == i and gi is None][0]
+        if "goals" not in base:
+            if "error" not in base:
+                results[i] = base          # an exception of the normalisation
+            continue
+        merged = dict(base)
+        merged["goals"] = []
+        for (ii, gi), rr in zip(retry, rres):
+            if ii == i and gi is not None:
+                if rr.get("goals"):
+                    merged["goals"].append(rr["goals"][0])
+                else:
+                    merged["goals"].append({"goal": goals[i][1][gi], "timeout": True, "detail": rr.get("error") or rr.get("exception")})
+        results[i] = merged
+        n_slow_resolved += 1
     th.join()
     timing["polar_and_class"] = round(time.time() - t_, 1)
     t_ = time.time()
@@ -395,10 +413,7 @@ def run(ctx):
             st["timeouts"] += 1
             bump(exc_hist, "timeout")
             if inclass:
-                which = [goals[i][1][gi] for (ii, gi), rr in zip(retry, rres) if ii == i and rr.get("error") == "timeout"]
-                ctx.violation(f"timeout:{text}", dict(replay, goals_timing_out=which),
-                              f"in-class program ({shape}) not analysed within 60 s" + (f"; monomials timing out alone: {which}" if which else "")
-                              + f"\n{text}")
+                ctx.violation(f"timeout:{text}", replay, f"in-class program ({shape}): normalisation alone does not finish within 60 s\n{text}")
             continue
         if "error" in r:
             bump(exc_hist, "worker-" + r["error"])
@@ -426,6 +441,13 @@ def run(ctx):
         for gi, gr in enumerate(r["goals"]):
             gname = gr["goal"]
             st["monomials"] += 1
+            if gr.get("timeout"):
+                st["timeouts"] += 1
+                bump(exc_hist, "timeout")
+                if inclass:
+                    ctx.violation(f"timeout:{text}:{gname}", dict(replay, goal=gname),
+                                  f"E({gname}) of an in-class program ({shape}) is not analysed within 60 s\n{text}")
+                continue
             if "refused" in gr:
                 bump(exc_hist, "not-effective(solvability_check)")
                 if inclass:
@@ -509,6 +531,7 @@ def run(ctx):
                             "InClass.in_class evaluated in the kernel; all monomials of degree <= 2 over the source variables (<= 12 per program); "
                             f"time limit 60 s per program; closed forms vs exact moments under Sem.run for n <= {N}; distinct by (text, options); "
                             "non-trivial = named shape or > 2 monomials; plus random labelled graphs (<= 7 nodes) and Polar-built systems for the worklist model")
+    ctx.coverage["programs_over_60s_in_total_rerun_per_monomial"] = n_slow_resolved
     ctx.coverage["per_shape"] = shape_stat
     ctx.coverage["class_decision"] = class_stat
     ctx.coverage["in_stream_rejected_by_in_class_because"] = part_fail
